@@ -133,7 +133,7 @@ def check_program(ctx, prog, script, rng, n_data=2, case_extra=None):
         return 'missing'
     outcome = 'ok'
     for di in range(n_data):
-        style = ['generic', 'positive', 'ints', 'small'][di % 4]
+        style = ['generic', 'positive', 'extreme', 'small', 'ints'][di % 5]
         data0 = ref.make_data(names, n, rng, style)
         for p in ref.feasible_positions(n, lags, leads):
             for spelling in ((p, p - n) if di == 0 else (p,)):
@@ -383,7 +383,7 @@ def run_shard(ctx):
         script = gen.render_program(prog, lay)
         ctx.evaluation(script, nontrivial=True, sample={'script': script, 'kind': 'small:' + tag})
         ctx.seen('small_shape_tags', tag)
-        out = check_program(ctx, prog, script, rng, n_data=2)
+        out = check_program(ctx, prog, script, rng, n_data=3 if i % 4 == 0 else 2)
         ctx.seen('outcomes', out)
     # 2. random programs
     count = ctx.pick(300, 8000)
